@@ -74,10 +74,13 @@ def run(chk):
     mults = [0.5, 2.0] if chk.tier == "quick" else [0.05, 0.5, 1.0, 2.0, 20.0, None]
     for fam, sign in (("lsn", 1), ("lsn", -1), ("usn", 1), ("cdn", 1), ("cdn_pert", 1), ("cdn_pert", -1), ("udn", 1), ("ldn", 1), ("udn2", 1)):
         for m in mults:
-            o = dict(base, nx_core=rng.randint(2, 6), nx_sol=rng.randint(2, 6), psi_spacing_separatrix_multiplier=m)
+            o = dict(base, nx_core=rng.randint(3, 6), nx_sol=rng.randint(3, 6), psi_spacing_separatrix_multiplier=m)
             if fam in ("udn", "ldn", "udn2"):
                 o["nx_inter_sep"] = rng.randint(1, 3)
             eq_reqs.append(dict(family=fam, sign=sign, options=o))
+            # the same at 32 times the radial resolution: there the one-sided differences at a separatrix resolve the gradient of the spacing function
+            fine = dict(o, **{k: 32 * v for k, v in o.items() if k in ("nx_core", "nx_sol", "nx_inter_sep")})
+            eq_reqs.append(dict(family=fam, sign=sign, options=fine, fine=True))
     # continuity in the parameters: geometric sweeps of the end-gradient ratio through all branch switches
     delta = 0.004 if chk.tier == "quick" else 0.002
     ratios = [0.3 * (1 + delta) ** k for k in range(int(math.log(6.0 / 0.3) / math.log(1 + delta)) + 1)]
@@ -112,6 +115,7 @@ def run(chk):
             chk.fail(f"refused:sweep:{q['which']}", "getSmoothMonotonicGridFunc refuses more than a third of a sweep of legal end-gradient ratios", dict(n=q["n"], lower=q["lower"], upper=q["upper"], errors=r["errors"], of=len(rows)))
     chk.notes["parameter_continuity_worst_second_difference"] = worst_sw
     nval = nprop = 0
+    worst_grad = [0.0]
     dist = {}
     for c, r in zip(cases, res["funcs"]):
         br = branch_of(c)
@@ -211,6 +215,18 @@ def run(chk):
                 pf_split = "divertor" in name and len(pv) == 3 and k == 0 and len(d["psi_sep"]) == 2
                 if min(abs(sepv - s) for s in d["psi_sep"]) > 1e-12 * max(1, abs(sepv)) and not pf_split:
                     chk.fail("region:separatrix-not-a-face", f"segment boundary of region {name} is not a separatrix value", dict(where, region=name, value=float(sepv), psi_sep=d["psi_sep"]))
+                # the same gradient d(psi)/d(index) on both sides of the separatrix: one-sided second-order differences of the FACE values (the spacing functions
+                # have vanishing second derivative there, so these are accurate to the third derivative)
+                fa, fb = pv[k][::2], pv[k + 1][::2]
+                if q.get("fine") and len(fa) >= 3 and len(fb) >= 3 and not pf_split:
+                    # f(i) = f0 + g i + c i^3 + ... near the separatrix (no quadratic term): g = (8 (f1 - f0) - (f2 - f0)) / 6 eliminates the cubic term
+                    ga = -(8 * (fa[-2] - fa[-1]) - (fa[-3] - fa[-1])) / 6.0
+                    gb = (8 * (fb[1] - fb[0]) - (fb[2] - fb[0])) / 6.0
+                    rel = abs(ga - gb) / max(abs(ga), abs(gb))
+                    worst_grad[0] = max(worst_grad[0], rel)
+                    if rel > 0.05:
+                        chk.fail("region:gradient-jump-at-separatrix", f"the radial spacing d(psi)/d(index) of region {name} differs between the two sides of a separatrix",
+                                 dict(where, region=name, segments=[k, k + 1], gradient_inside=float(ga), gradient_outside=float(gb), relative_difference=float(rel)))
     # ---- corpus grids: dx is the psi difference between the x-faces
     ng = 0
     for g in corpus.get(tier=chk.tier):
@@ -229,6 +245,7 @@ def run(chk):
     chk.cov["rule"] = "random (n, boundary values of both orderings, end-gradient ratios 0.05..20 incl. the switch points) per branch; real equilibria of every topology incl. a perturbed connected double null, multipliers 0.05..20; corpus grids"
     chk.cov["programs"] = 6
     chk.cov["disagreements_checked"] = nval
+    chk.notes["worst_relative_gradient_difference_across_a_separatrix"] = worst_grad[0]
     chk.notes["correspondence"] = {"function_cases": nprop, "branch_distribution": dist, "translation_values_compared": nval, "equilibria": neq, "grids": ng}
     chk.sample({"case": cases[0], "branch": branch_of(cases[0])})
     chk.sample({"equilibrium": eq_reqs[0]})
